@@ -706,9 +706,13 @@ class InspectFunction(object):
 
         def fetch(dep: DDSPath) -> PyHash:
             key = gctx.resolved_references.get(dep)
-            assert (
-                key is not None
-            ), f"Missing dep {dep} for {fun_path}: {call_stack} {gctx.resolved_references}"
+            if key is None:
+                raise DDSException(
+                    f"Function {fun_path} loads the path {dep} before it is produced: {dep} is kept "
+                    f"later in the same evaluation. Suggestion: call the function that keeps {dep} "
+                    f"before loading it. Call stack: {call_stack}",
+                    DDSErrorCode.STORE_PATH_NOT_FOUND,
+                )
             return key
 
         indirect_deps_sigs = dict([(dep, fetch(dep)) for dep in indirect_dep])
